@@ -17,5 +17,6 @@ import (
 	_ "verif/checks/cachex"
 	_ "verif/checks/c17"
 	_ "verif/checks/c18"
+	_ "verif/checks/c19"
 	_ "verif/checks/c20"
 )
